@@ -168,7 +168,7 @@ pub struct Searcher<'a> {
     dockerignore_filters: Vec<DockerignoreFilter>,
     visited_dirs: HashSet<PathBuf>,
     #[cfg(unix)]
-    visited_inodes: HashSet<u64>,
+    visited_inodes: HashSet<(u64, u64)>,
     lscolors: LsColors,
     dir_queue: Box<VecDeque<PathBuf>>,
     current_follow_symlinks: bool,
@@ -378,7 +378,7 @@ impl<'a> Searcher<'a> {
                     false => symlink_metadata(root_dir),
                 };
                 if let Ok(metadata) = metadata {
-                    self.visited_inodes.insert(metadata.ino());
+                    self.visited_inodes.insert((metadata.dev(), metadata.ino()));
                 }
             }
 
@@ -873,11 +873,11 @@ impl<'a> Searcher<'a> {
 
     #[cfg(unix)]
     fn ok_to_visit_dir(&mut self, entry: &DirEntry, file_type: FileType) -> bool {
-        let ino = entry.ino();
-        if self.visited_inodes.contains(&ino) {
+        // an inode number identifies a directory only together with its device:
+        // the numbers repeat from one file system to the next
+        let dev = entry.metadata().map(|metadata| metadata.dev()).unwrap_or(0);
+        if !self.visited_inodes.insert((dev, entry.ino())) {
             return false;
-        } else {
-            self.visited_inodes.insert(ino);
         }
 
         match self.current_follow_symlinks {
